@@ -17,6 +17,7 @@ func init() {
 			"(Sign1 tagged/untagged, Sign with 1..6 signers, hash envelope; 7 algorithms; keys direct or via the COSE_Key directory; payload/external boundary lengths), " +
 			"signs with go-cose under a seeded entropy stream (legal short reads only), verifies in memory, encodes (payload detached on a subset), decodes, re-attaches, verifies; " +
 			"a notary then countersigns constructed or decoded parents (4 parent kinds x pointer/value x full/abbreviated, nesting <= 3), attaches, relays, and every countersignature is verified against its parent as built and as re-parsed. " +
+			"One run in eight is a re-signing history instead: a decoded Sign1 (60 % written by the foreign peer, retained raw buckets with wide heads) is signed again, verified in memory twice with an abbreviated countersignature in between, encoded, decoded, verified. " +
 			"A run is non-trivial when at least one signature was produced and verified; distinct = distinct (operation kinds, fault kinds, outcome classes) sequence.",
 		Assumptions: []string{"Go crypto primitives and math/big are correct (shared with go-cose)", "header values stay inside the input model of DESIGN 2.2", "RSA keys come from a committed pool of three test keys"},
 		Real:        []string{"github.com/veraison/go-cose (all of it)", "github.com/fxamacker/cbor/v2", "Go crypto (ecdsa, rsa, ed25519, sha2)"},
